@@ -174,7 +174,7 @@ func botTable(r *rand.Rand, st *acStats, hid int, hands int, snapsOut *[]*pokert
 	te := pokertable.NewTableEngine(opts, pokertable.WithGameBackend(be))
 	hk := pokertable.VerifHooksOf(te)
 	bots := []*botSeat{}
-	var outMu sync.Mutex
+	var outMu, joinMu sync.Mutex
 	var dispatchMu sync.Mutex
 	te.OnTableUpdated(func(t *pokertable.Table) {
 		// the engine's own goroutines publish concurrently; the bots (like the test suite's) are fed one state at a time
@@ -249,7 +249,10 @@ func botTable(r *rand.Rand, st *acStats, hid int, hands int, snapsOut *[]*pokert
 		ad := &recAdapter{inner: actor.NewTableEngineAdapter(te, te.GetTable())}
 		a.SetAdapter(ad)
 		bot := actor.NewBotRunner(pid(id))
-		bot.OnTableAutoJoinActionRequested(func(c, t, p string) { te.PlayerJoin(p) })
+		// the bots ask to sit in 100 ms after their first view, all at about the same moment; PlayerJoin takes no lock
+		// (its concurrent use is finding D31's family, probed under C01/C03/C12), so the harness hands the requests to the
+		// engine one at a time — under load two of them once ran into each other inside the engine and killed the process
+		bot.OnTableAutoJoinActionRequested(func(c, t, p string) { joinMu.Lock(); defer joinMu.Unlock(); te.PlayerJoin(p) })
 		a.SetRunner(bot)
 		bots = append(bots, &botSeat{id, a, ad})
 	}
@@ -639,6 +642,57 @@ func (s *slowRunner) UpdateTableState(t *pokertable.Table) error {
 	s.handled++
 	s.mu.Unlock()
 	return nil
+}
+
+// observerOverlapCase: several table events reach one adapter at the same moment (the engine emits some of them without
+// its lock; an application may fan OnTableUpdated out from several goroutines) while the non-system observer's listener
+// takes a moment. Whatever snapshot the listener is handed must have been filtered — that one, not some other.
+func observerOverlapCase(r *rand.Rand, snap *pokertable.Table, status pokertable.TableStateStatus) string {
+	et := safeClone(snap)
+	if et == nil || et.State.GameState == nil {
+		return ""
+	}
+	et.State.Status = status
+	inPriv := privStr(et.State.GameState)
+	k := 2 + r.Intn(3)
+	dwell := time.Duration(1+r.Intn(4)) * time.Millisecond
+	a := actor.NewActor()
+	ad := actor.NewTableEngineAdapter(nil, et)
+	a.SetAdapter(ad)
+	ob := actor.NewObserverRunner()
+	a.SetRunner(ob)
+	var mu sync.Mutex
+	shown := []string{}
+	ob.OnTableStateUpdated(func(t *pokertable.Table) {
+		sh := "nogame"
+		if t != nil && t.State.GameState != nil {
+			sh = privStr(t.State.GameState)
+		}
+		time.Sleep(dwell)
+		mu.Lock()
+		shown = append(shown, sh)
+		mu.Unlock()
+	})
+	var wg sync.WaitGroup
+	for i := 0; i < k; i++ {
+		c := safeClone(et)
+		if c == nil {
+			continue
+		}
+		wg.Add(1)
+		go func(i int, c *pokertable.Table) {
+			defer wg.Done()
+			defer func() { recover() }()
+			time.Sleep(time.Duration(i) * 300 * time.Microsecond)
+			a.GetTable().UpdateTableState(c)
+		}(i, c)
+	}
+	wg.Wait()
+	out := ""
+	for _, sh := range shown {
+		out += fmt.Sprintf("ac observe-overlap st=%s k=%d %s | %s\n", statusShort(status), k, inPriv, sh)
+	}
+	return out
 }
 
 func deliveryCase(r *rand.Rand, snap *pokertable.Table) string {
@@ -1050,6 +1104,9 @@ func runActor(args []string) {
 			w.WriteString(observerCase(r, s, status, r.Intn(4) == 0, na, r.Intn(na)))
 			st.ObsCases++
 			st.ObsStatuses[statusShort(status)]++
+			if k%10 == 0 {
+				w.WriteString(observerOverlapCase(r, s, status))
+			}
 		}
 		w.WriteString("ac end\n")
 		st.Histories += 2
